@@ -4,8 +4,8 @@ import json, os
 root = os.path.dirname(os.path.dirname(os.path.abspath(__file__)))
 
 TB = ("Trusted: testing/synctest (fake clock, quiescence), the instrumenter's construct-level rewrites, the oracles in /verif/harness, the Go race "
-      "detector where the -race variant is used. Assumes code between two scheduling points (atomic/lock/channel operations, goroutine spawns, map ranges) "
-      "runs atomically; a clean batch is evidence for the explored bounds, not a proof.")
+      "detector where the -race variant is used. Assumes code between two scheduling points (atomic, lock and channel operations, lock releases in two thirds "
+      "of the runs, goroutine spawns, map ranges) runs atomically; a clean batch is evidence for the explored bounds, not a proof.")
 
 checks = {
  "C01": dict(level="exploration", ref="DESIGN.md 3 C01",
@@ -30,7 +30,7 @@ checks = {
    text="The failure dimension is enumerated completely within its bounds (576 cells: decision x strategy x failure site x panic/Failed x tree shape, plus failures while stopping), every cell visited repeatedly, each visit under a fresh seeded schedule; recording decision makers and the complete per-actor traces decide whether exactly the directive's targets were restarted / stopped / resumed and everybody else was left alone.",
    technique="deterministic simulation with enumerated fault injection (failure matrix) and sampled schedules"),
  "C09": dict(level="fault_enumeration", ref="DESIGN.md 3 C09",
-   text="The same enumerated failure matrix with a burst queued around the failing message, plus zombie (failing restart hooks), nested concurrent failures and failures while stopping; 'stuck' is decided, not approximated: at quiescence an accessor lists paused or half-stopped contexts, and numbered probes sent afterwards must be processed by every living actor and dead-lettered for every stopped one.",
+   text="The same enumerated failure matrix with a burst queued around the failing message, plus zombie (failing restart hooks, later group decisions that reach the zombie), nested concurrent failures, failures while stopping and mail that fails while its subtree or the system is being stopped (supervisors answering anything, including Escalate and out-of-range values); 'stuck' is decided, not approximated: at quiescence an accessor lists paused or half-stopped contexts, and numbered probes sent afterwards must be processed by every living actor and dead-lettered for every stopped one.",
    technique="deterministic simulation with enumerated fault injection, quiescence oracle + probe traffic"),
  "C10": dict(level="exploration", ref="DESIGN.md 3 C10, 2.6",
    text="Outside goroutines hammer the documented-concurrent API while supervised trees spawn, fail, restart and die; most runs execute in a -race build in which every scheduler hand-off is hidden from ThreadSanitizer (RaceDisable + //go:norace runtime), so two accesses to vivid state that any explored schedule executes without real synchronisation between them are reported deterministically, not by lucky timing; the plain build checks for panics and tree consistency at quiescence through an accessor. A self-test (vcheck SELF / SELFNEG) shows ordered chains are not reported and unordered accesses are.",
